@@ -32,6 +32,7 @@ RULES['C09'] += ' Added later: awaited expect(EOF), PopenSpawn children (status 
 
 ASSUME = ['wait() on a stopped child nobody continues is documented as unsupported and skipped',
           'signal delivery latency and descriptors-closed-to-reapable gap <= 20 ms (inside pexpect/ptyprocess 0.1 s grace sleeps)',
+          'exceptions from outside (Ctrl-C, a raising signal handler) are injected only where the code under test really waits (select, poll, recv, sleep, a blocking waitpid): between two arbitrary bytecodes no code can promise anything and nothing is judged there',
           'subprocess.Popen is stubbed (FakePopen over the simulated process table): for PopenSpawn only pexpect\'s own status mapping in wait() runs']
 
 
